@@ -11,6 +11,9 @@ CHECKS = {
  "C06": dict(cat="model_checking", design="DESIGN.md section 5 C06",
    technique="TLA+ spec IntWidth.tla (symbolic boundary points) model-checked exhaustively with TLC; every TLC-generated bound pair replayed through the real compiler in six syntactic positions; recorded trace validated by TLC against the spec",
    text="TLC enumerates all (lower<=upper) pairs of the 53-point boundary set x extension marker x position x form x assigned value (about 2.3*10^4 cases, the whole space the property names), checks that the model's selection is allowed, and validates for every case that the Rust type chosen by the compiler can hold every permitted value, is fixed-width only for finite non-extensible ranges, and that emitted literals fit their declared type. Exhaustive, both tiers."),
+ "C05": dict(cat="model_checking", design="DESIGN.md section 5 C05",
+   technique="TLA+ spec Ext.tla (component-list fold as actions) model-checked exhaustively with TLC; every TLC-generated layout replayed through the real compiler; recorded trace validated by TLC against the spec",
+   text="TLC enumerates every component-list layout within the bound (thorough: <=4 root components, marker at every position, <=6 components after the marker as loose additions and <=3 version groups in every interleaving, x SEQUENCE/SET/CHOICE/ENUMERATED x nested x EXTENSIBILITY IMPLIED: 95 160 layouts; quick: 3/4/2), checks the fold invariants (additions = members after the marker, groups partition their members, index = #root), and validates for every layout the compiler's observed members, roles, group contents, optionality, non_exhaustive marking and IR extension index against the spec."),
 }
 
 NOT_BUILT = "check not built yet (DESIGN.md section 13 build order)"
